@@ -37,6 +37,10 @@ class DigestMarker:
         return "DigestMarker(%r)" % (self.plaintext,)
 
 
+class WeirdError(Exception):
+    """An application-defined exception type (neither ValueError, TypeError nor OSError)."""
+
+
 def run_validator(name, value, cfg=None, node=None):
     """The pool of custom field validators (pure)."""
     if not name or name == "v_ok":
@@ -44,6 +48,11 @@ def run_validator(name, value, cfg=None, node=None):
     if name == "v_not42":
         if isinstance(value, (int, float, str)) and not isinstance(value, bool) and str(value) in ("42", "42.0"):
             raise ValueError("42 is not allowed")
+        return value
+    if name == "v_not7":
+        # rejects 7 - with an exception that is NOT a ValueError (a validator is free to raise whatever it likes)
+        if isinstance(value, (int, float, str)) and not isinstance(value, bool) and str(value) in ("7", "7.0"):
+            raise [KeyError, RuntimeError, AttributeError, ZeroDivisionError, WeirdError][len(str(value)) % 5 if isinstance(value, str) else int(value) % 5]("7 is not allowed")
         return value
     if name == "v_short":
         # container/string-level rule: at most three items / characters
@@ -148,7 +157,7 @@ def ref(spec, value, ctx=None):
     if res[0] == A and spec.get("validator"):
         try:
             return (A, run_validator(spec["validator"], res[1]))
-        except ValueError:
+        except Exception:  # whatever a custom validator raises is a rejection
             return (REJ, "custom validator")
     return res
 
